@@ -782,8 +782,18 @@ def corr_stream(rng, n, pid, stats):
     mix = C15_MIX if pid == 'C15' else C18_MIX
     fns, weights = [m[0] for m in mix], [m[1] for m in mix]
     out = []
+    hangs = 0
     for _ in range(n):
-        out.append(rng.choices(fns, weights)[0](rng, stats))
+        fn = rng.choices(fns, weights)[0]
+        # the real code runs inside the case builders: a faulty tree that spins must not hang the check.  Such a case is
+        # dropped here (the property's own streams / the oracle report the hang with an input); three of them end the stream
+        try:
+            out.append(core.with_timeout(lambda: fn(rng, stats), 3))
+        except core.Hang:
+            hangs += 1
+            bump(stats, 'helpers:hangs')
+            if hangs >= 3:
+                break
     return out
 
 
@@ -1348,7 +1358,11 @@ def install(cls, quick=None, thorough=None):
         evals, findings = o_search(self, rng, n, [s for s in seeds if not (isinstance(s, dict) and s.get('kind') == 'helpers')])
         if not hasattr(self, 'stats') or self.stats is None:
             self.stats = {}
-        ev, fs = search_stream(rng, sizes(self)[1], pid, self.stats, mine)
+        try:
+            ev, fs = core.with_timeout(lambda: search_stream(rng, sizes(self)[1], pid, self.stats, mine), 120)
+        except core.Hang:
+            ev, fs = 1, [Finding(f'{pid}:helpers:hang', 'an accessor of the request helper classes did not terminate '
+                                 '(120 s of CPU time in the helpers oracle stream)', dict(probe='helpers', sub='hang'))]
         return evals + ev, list(findings) + fs
 
     def replay(self, data):
